@@ -53,8 +53,8 @@ def body(run):
     T = run.thorough()
     # (MC_QL_live_excstall.cfg: the model of the current code does not satisfy Returns once a server exception meets a
     #  blocked write - known finding F-29; the run is kept as the model-level reproduction of it)
-    st = Q.design(PID, ["MC_QL_stall.cfg", "MC_QL_live.cfg"] + (["MC_QL_select.cfg", "MC_QL_live_stall.cfg"] if T else []),
-                  nonvac=[("MC_QL_live_excstall.cfg", "Returns")])
+    st = Q.design(PID, ["MC_QL_stall.cfg", "MC_QL_live.cfg", "MC_QL_half.cfg"] + (["MC_QL_select.cfg", "MC_QL_live_stall.cfg"] if T else []),
+                  nonvac=[("MC_QL_live_excstall.cfg", "Returns"), ("MC_QL_live_half.cfg", "Returns")])
     drv = V.go_build(PID, "drv")
     base = baselines(run, rng)
     blines, bstats = Q.run_scenarios(PID, drv, base, name="c10-base")
@@ -96,6 +96,11 @@ def body(run):
             for how in ("C", "D", "DT"):
                 scs.append(Q.scenario("c10-%d" % (len(scs) + 1), Q.cfg(scn, s, **kw), sched="Z" + "S" * 8 + "V" * len(s) + "RRRR" + "WW" + how + "SSWW",
                                       compression=rng.choice(["disabled", "lz4"])))
+    # the server falls silent inside a packet; then the caller cancels (or its deadline passes): the call must still end
+    for scn, s, kw in (("select", Q.S("hdr", "half"), {}), ("select", Q.S("hdr", "data", "prog", "half"), {})):
+        for how in ("C", "D"):
+            scs.append(Q.scenario("c10-%d" % (len(scs) + 1), Q.cfg(scn, s, **kw), sched="SSSS" + "VV" + "RRR" + how + "WWSS",
+                                  compression="disabled"))
     behs, _ = Q.tlc_behaviours(PID, "Gen_QL_stall.cfg", 3000 if T else 300, run.seed + 7)
     for c, sched in behs:
         scs.append(Q.scenario("c10-%d" % (len(scs) + 1), Q.from_tlc_cfg(c), sched=sched, compression=rng.choice(["disabled", "lz4"])))
